@@ -8,6 +8,7 @@ potential the acceptance test uses.   Does not decide: the size of the energy er
 """
 from __future__ import annotations
 import ast
+import copy
 from fractions import Fraction
 from ..model import qual, get_kw
 from ..flow import Enumerator, RETURN, fmt
@@ -140,6 +141,30 @@ def _splitting(prog, ci, c, fn, unroll):
             gnames.add(st.targets[0].id)
             if st.targets[0].id not in env:
                 guard(lambda: ex.exec_stmt(st, env))
+    # a velocity held in a local for the very next statement (`velocity = self.mass.get_velocity(r); t += eps * velocity`): nothing
+    # lies between the evaluation and its use, so the local is written back into the drift
+    vel_subst, vel_skip = {}, set()
+    for blk_owner in ast.walk(fn):
+        for fld in ("body", "orelse"):
+            blk = getattr(blk_owner, fld, None)
+            if not (isinstance(blk, list) and blk and isinstance(blk[0], ast.stmt)):
+                continue
+            for i_ in range(len(blk) - 1):
+                a_, b_ = blk[i_], blk[i_ + 1]
+                if isinstance(a_, ast.Assign) and len(a_.targets) == 1 and isinstance(a_.targets[0], ast.Name) \
+                        and any(isinstance(x, ast.Call) and U(x.func) == "self.mass.get_velocity" for x in ast.walk(a_.value)) \
+                        and isinstance(b_, (ast.AugAssign, ast.Assign)) \
+                        and any(isinstance(x, ast.Name) and x.id == a_.targets[0].id and isinstance(x.ctx, ast.Load) for x in ast.walk(b_)):
+                    vel_subst[id(b_)] = (a_.targets[0].id, a_.value, b_)
+                    vel_skip.add(id(a_))
+    # only if EVERY read of such a local is in the statement right after its definition (otherwise a later read could see a stale value)
+    for nm_ in {v_[0] for v_ in vel_subst.values()}:
+        n_all = sum(1 for x in ast.walk(fn) if isinstance(x, ast.Name) and x.id == nm_ and isinstance(x.ctx, ast.Load))
+        n_adj = sum(1 for v_ in vel_subst.values() if v_[0] == nm_ for x in ast.walk(v_[2]) if isinstance(x, ast.Name) and x.id == nm_ and isinstance(x.ctx, ast.Load))
+        if n_all != n_adj:
+            for k_ in [k_ for k_, v_ in vel_subst.items() if v_[0] == nm_]:
+                del vel_subst[k_]
+            vel_skip.clear()
     shear_problems = []
 
     def coeff(expr, fname, must_not):
@@ -158,6 +183,15 @@ def _splitting(prog, ci, c, fn, unroll):
 
     def classify(node):
         ev = []
+        if id(node) in vel_skip:
+            return ev
+        if id(node) in vel_subst:
+            vn_, vv_, _b = vel_subst[id(node)]
+
+            class _Sub(ast.NodeTransformer):
+                def visit_Name(self, x):
+                    return copy.deepcopy(vv_) if x.id == vn_ and isinstance(x.ctx, ast.Load) else x
+            node = ast.fix_missing_locations(_Sub().visit(copy.deepcopy(node)))
         node = as_augassign(node)
         try:
             if isinstance(node, ast.Assign) and len(node.targets) == 1 and isinstance(node.targets[0], ast.Name) and node.targets[0].id in gnames:
